@@ -13,7 +13,7 @@ import numpy as np
 from .. import tgen, tprog
 from . import c01
 
-LEAN_TARGETS = ["YProofs.Props.C02", "YProofs.Props.C02Legs", "YProofs.Props.C02Prog", "YProofs.Props.C01Broadcast", "YProofs.Props.C01Mask", "YProofs.Props.C01Diag"]
+LEAN_TARGETS = ["YProofs.Props.C02", "YProofs.Props.C02Legs", "YProofs.Props.C02Prog", "YProofs.Props.C01Broadcast", "YProofs.Props.C01Mask", "YProofs.Props.C01Diag", "YProofs.Props.C02Fuse"]
 LEVEL = "proof"
 TRANSLATORS = ["gen_sym"]
 DRIVER = "drv_c01"
